@@ -11,6 +11,7 @@ LIB-SSE CODE
 @description: 
 """
 import json
+import os
 import pathlib
 import pickle
 import shutil
@@ -19,6 +20,17 @@ _PROGRAM_DIR_PATH = pathlib.Path.home().joinpath(".sse")
 _PROGRAM_PATH = pathlib.Path(_PROGRAM_DIR_PATH)
 if not _PROGRAM_PATH.exists():
     _PROGRAM_PATH.mkdir(exist_ok=True)
+
+
+def _write_file_atomically(file_path: pathlib.Path, data: bytes):
+    """Write to a temporary file first and then rename it over the target,
+    so that a crash never leaves a truncated or half-written file behind."""
+    tmp_path = file_path.with_name(file_path.name + ".tmp")
+    with open(tmp_path, "wb") as f:
+        f.write(data)
+        f.flush()
+        os.fsync(f.fileno())
+    os.replace(tmp_path, file_path)
 
 
 def check_sid_folder_exist(sid: str):
@@ -42,8 +54,7 @@ def write_service_config(sid: str, config: dict):
     if not service_dir_path.exists():
         return
 
-    with open(service_dir_path.joinpath("config.json"), "w") as f:
-        json.dump(config, f)
+    _write_file_atomically(service_dir_path.joinpath("config.json"), json.dumps(config).encode("utf8"))
 
 
 def read_service_meta(sid: str) -> dict:
@@ -55,8 +66,7 @@ def write_service_meta(sid: str, meta: dict):
     if not service_dir_path.exists():
         return
 
-    with open(service_dir_path.joinpath("service_meta"), "wb") as f:
-        pickle.dump(meta, f)
+    _write_file_atomically(service_dir_path.joinpath("service_meta"), pickle.dumps(meta))
 
 
 def read_encrypted_database(sid: str) -> bytes:
@@ -69,5 +79,4 @@ def write_encrypted_database(sid: str, edb_bytes: bytes):
     if not service_dir_path.exists():
         return
 
-    with open(service_dir_path.joinpath("edb"), "wb") as f:
-        f.write(edb_bytes)
+    _write_file_atomically(service_dir_path.joinpath("edb"), edb_bytes)
